@@ -532,6 +532,8 @@ def run(pid, tier_, replay=None):
         # the dictionary state machine: Dictionary.tla exhaustively, and DictObs.tla on every dictionary column of every recorded stream
         dct = dict(zip(("states", "generated", "runs", "issues"), otap.dictionary_mc(quick)))
         dct["obs"] = otap.run_dictobs(outs, plan, timeout=1500 if quick else 7000)
+        if pid in ("C13", "C08"):
+            dct["unbounded"] = otap.dictionary_unbounded()
     strm = None
     if pid in ("C07", "C12"):
         # the payload-level protocol: Stream.tla exhaustively (with its specification mutants), and StreamTrace.tla on every recorded
@@ -602,6 +604,11 @@ def run(pid, tier_, replay=None):
                    dictionary=dict(spec="Dictionary.tla / DictFn.tla / DictObs.tla", model_runs=dct["runs"], columns_followed=dct["obs"]["columns"],
                                    column_batches_validated=dct["obs"]["records"], conformance_drift=len(dct["obs"]["drift"]),
                                    drift_samples=dct["obs"]["drift"][:3]))
+        if "unbounded" in dct:
+            cov["dictionary"]["unbounded"] = dct["unbounded"]["steps"]
+            cov["dictionary"]["spec"] += " / DictionaryInd.tla (Apalache, unbounded) / MC_DictionaryRef.tla"
+            if not dct["unbounded"]["ok"]:
+                model_issues.append("DictionaryInd.tla: " + str(dct["unbounded"]["problem"]))
         if pid == "C13":
             cov["traces_validated_against_impl"] = dct["obs"]["columns"] - len({d[1] for d in dct["obs"]["drift"]})
         for d in dct["obs"]["drift"][:4]:
